@@ -222,8 +222,159 @@ impl Condvar {
     }
 }
 
+/// `std::sync::mpsc` channels built on the shimmed `Mutex` and `Condvar`, so that a blocking
+/// `send` on a full bounded channel or a blocking `recv` is a simulated wait, not a real one.
+pub mod mpsc_shim {
+    use std::collections::VecDeque;
+    pub use std::sync::mpsc::{RecvError, SendError, TryRecvError, TrySendError};
+    use std::sync::Arc;
+
+    use super::{Condvar, Mutex};
+
+    struct State<T> {
+        queue: VecDeque<T>,
+        senders: usize,
+        receiver_alive: bool,
+    }
+
+    struct Chan<T> {
+        state: Mutex<State<T>>,
+        capacity: Option<usize>,
+        not_empty: Condvar,
+        not_full: Condvar,
+    }
+
+    pub struct Sender<T>(Arc<Chan<T>>);
+    pub type SyncSender<T> = Sender<T>;
+    pub struct Receiver<T>(Arc<Chan<T>>);
+
+    fn new_chan<T>(capacity: Option<usize>) -> (Sender<T>, Receiver<T>) {
+        let chan = Arc::new(Chan {
+            state: Mutex::new(State {
+                queue: VecDeque::new(),
+                senders: 1,
+                receiver_alive: true,
+            }),
+            capacity,
+            not_empty: Condvar::new(),
+            not_full: Condvar::new(),
+        });
+        (Sender(chan.clone()), Receiver(chan))
+    }
+
+    pub fn channel<T>() -> (Sender<T>, Receiver<T>) {
+        new_chan(None)
+    }
+
+    pub fn sync_channel<T>(bound: usize) -> (SyncSender<T>, Receiver<T>) {
+        // (a rendezvous channel, bound 0, is approximated by a buffer of one)
+        new_chan(Some(bound.max(1)))
+    }
+
+    impl<T> Sender<T> {
+        pub fn send(&self, value: T) -> Result<(), SendError<T>> {
+            let mut st = self.0.state.lock().unwrap();
+            loop {
+                if !st.receiver_alive {
+                    return Err(SendError(value));
+                }
+                match self.0.capacity {
+                    Some(cap) if st.queue.len() >= cap => st = self.0.not_full.wait(st).unwrap(),
+                    _ => break,
+                }
+            }
+            st.queue.push_back(value);
+            drop(st);
+            self.0.not_empty.notify_one();
+            Ok(())
+        }
+
+        pub fn try_send(&self, value: T) -> Result<(), TrySendError<T>> {
+            let mut st = self.0.state.lock().unwrap();
+            if !st.receiver_alive {
+                return Err(TrySendError::Disconnected(value));
+            }
+            if matches!(self.0.capacity, Some(cap) if st.queue.len() >= cap) {
+                return Err(TrySendError::Full(value));
+            }
+            st.queue.push_back(value);
+            drop(st);
+            self.0.not_empty.notify_one();
+            Ok(())
+        }
+    }
+
+    impl<T> Clone for Sender<T> {
+        fn clone(&self) -> Self {
+            self.0.state.lock().unwrap().senders += 1;
+            Sender(self.0.clone())
+        }
+    }
+
+    impl<T> Drop for Sender<T> {
+        fn drop(&mut self) {
+            if let Ok(mut st) = self.0.state.lock() {
+                st.senders -= 1;
+                let last = st.senders == 0;
+                drop(st);
+                if last {
+                    self.0.not_empty.notify_all();
+                }
+            }
+        }
+    }
+
+    impl<T> Receiver<T> {
+        pub fn recv(&self) -> Result<T, RecvError> {
+            let mut st = self.0.state.lock().unwrap();
+            loop {
+                if let Some(value) = st.queue.pop_front() {
+                    drop(st);
+                    self.0.not_full.notify_one();
+                    return Ok(value);
+                }
+                if st.senders == 0 {
+                    return Err(RecvError);
+                }
+                st = self.0.not_empty.wait(st).unwrap();
+            }
+        }
+
+        pub fn try_recv(&self) -> Result<T, TryRecvError> {
+            let mut st = self.0.state.lock().unwrap();
+            match st.queue.pop_front() {
+                Some(value) => {
+                    drop(st);
+                    self.0.not_full.notify_one();
+                    Ok(value)
+                }
+                None if st.senders == 0 => Err(TryRecvError::Disconnected),
+                None => Err(TryRecvError::Empty),
+            }
+        }
+
+        pub fn try_iter(&self) -> impl Iterator<Item = T> + '_ {
+            std::iter::from_fn(move || self.try_recv().ok())
+        }
+
+        pub fn iter(&self) -> impl Iterator<Item = T> + '_ {
+            std::iter::from_fn(move || self.recv().ok())
+        }
+    }
+
+    impl<T> Drop for Receiver<T> {
+        fn drop(&mut self) {
+            if let Ok(mut st) = self.0.state.lock() {
+                st.receiver_alive = false;
+                drop(st);
+                self.0.not_full.notify_all();
+            }
+        }
+    }
+}
+
 /// Stands in for the name `std` inside the lsp crate's modules (`use ... as std`), so that
-/// `std::sync::{Mutex, RwLock, Condvar}` resolve to the shims above however they are spelled
+/// `std::sync::{Mutex, RwLock, Condvar, mpsc}` resolve to the shims above however they are spelled
 /// (imported or by full path); everything else is the real `std`.
 pub mod std_shim {
     pub use ::std::*;
@@ -233,6 +384,13 @@ pub mod std_shim {
             Condvar, Mutex, MutexGuard, RwLock, RwLockReadGuard, RwLockWriteGuard,
         };
         pub use ::std::sync::*;
+
+        pub mod mpsc {
+            pub use crate::verif_hooks::mpsc_shim::{
+                channel, sync_channel, Receiver, Sender, SyncSender,
+            };
+            pub use ::std::sync::mpsc::*;
+        }
     }
 }
 
